@@ -149,6 +149,9 @@ func matchFault(kind, path string, c *Ctx) *scen.Fault {
 		if f.CallID >= 0 && f.CallID != c.Call {
 			continue
 		}
+		if f.CallID == -2 && c.Call != -1 {
+			continue // only operations outside Match* calls (Clean)
+		}
 		if f.PathSuffix != "" && !contains(path, f.PathSuffix) {
 			continue
 		}
